@@ -329,6 +329,8 @@ def check_fsm_trace(tr, init_show, final_dump_after_stop=None):
     last_eod = None
     tables = [None, None]
     own_before_open = None
+    apply_failed = False           # the client reported a payload PDU it could not apply (codes 6/7): the rollback may have ended in a purge
+    reset_allowed = False          # ... after which a Reset Query is legitimate even if the purge removed nothing visible
     others_ref = None
     sent = b""
     may_lower = None               # a legitimate cause to lower the version has occurred: the new version
@@ -361,6 +363,9 @@ def check_fsm_trace(tr, init_show, final_dump_after_stop=None):
                     acked = None
                 if acked is not None and not own(pf) and not own(ks) and own_before_open:
                     reset_cause = "purged"         # C03: rollback failed, everything removed
+                elif acked is not None and not own(pf) and not own(ks) and apply_failed:
+                    reset_allowed = True           # the same purge on a socket that held nothing: invisible in the tables
+                apply_failed = False
         elif k == "tx":
             sent += ev[1]
             pdus, rest = P.decode_stream(sent)
@@ -380,8 +385,10 @@ def check_fsm_trace(tr, init_show, final_dump_after_stop=None):
                         fails.append(("C05", "Serial Query sent where a Reset Query is required (%s)" % reset_cause))
                     elif (p["f16"], p["sn"]) != acked:
                         fails.append(("C05", "Serial Query carries (%d,%d), the last End of Data was %s" % (p["f16"], p["sn"], acked)))
+                elif p["type"] == P.ERROR and p["f16"] in (6, 7):
+                    apply_failed = True
                 elif p["type"] == P.RESET_QUERY:
-                    if reset_cause is None and acked is not None:
+                    if reset_cause is None and acked is not None and not reset_allowed:
                         fails.append(("C05", "Reset Query sent although (%d,%d) was acknowledged and nothing reset the session" % acked))
         elif k == "werr":
             sent = b""
@@ -413,6 +420,7 @@ def check_fsm_trace(tr, init_show, final_dump_after_stop=None):
                 if last_eod is not None:
                     acked = (struct.unpack(">H", last_eod[2:4])[0], struct.unpack(">I", last_eod[8:12])[0])
                     reset_cause = None
+                    reset_allowed = False
                     last_success = ev[2]
                 last_eod = None
             elif st == "ERROR_NO_DATA_AVAIL":
